@@ -1,21 +1,39 @@
 import Sftp.Model.Handles
+import Sftp.Generated.AllocHandles
 /-
   Line-protocol driver for the handle-table model (C11).
 
   c11.run <cfg> <action>*      one action per token, executed from the initial state
+  c11.cur rs|os                the <cfg> token (extended form) of the configuration REGENERATED from the
+                               source on this run, completed with the hand-written constants for the
+                               fields that have no generated source yet (`cfgOfRS` / `cfgOfOS`)
 
-  <cfg>   six characters `0`/`1`: deleteOnClose, closeOnFailedOpen, sweepClosesAll,
-          sweepNotifiesTransferError, counterMonotone, allocBeforeOpen.
-          Today's request server is `111111`, today's os-backed server `111010`.
+  <cfg>   LEGACY form: six characters `0`/`1`: deleteOnClose, closeOnFailedOpen, sweepClosesAll,
+          sweepNotifiesTransferError, counterMonotone, allocBeforeOpen (what `cur.cfg c11rs|c11os` print).
+          The refined fields are set so that the coarse model of before is reproduced exactly:
+          sweepEmptiesTable = sweepClosesAll, every kind of object is notified, useKindChecked = 1;
+          the result line has the three legacy fields only.
+          EXTENDED form: `<8 bits>:<kinds>` — the six bits above, then sweepEmptiesTable, useKindChecked;
+          <kinds> = the kinds of object Request.transferError notifies, letters out of `rwblp`
+          (reader, writer, reader-writer ("both"), lister, placeholder) in any order, `.` for none.
+          Today's request server is `11111111:rwb`, today's os-backed server `11101000:.`.
+          The result line has two more fields at the end (`handles=`, `kinds=`).
   <action>
-          O        openOk    open / opendir answered with a HANDLE (the handle is the next number, from 1)
+          O        openOk    open / opendir answered with a HANDLE (the handle is the next number, from 1);
+                             `O` alone = `O:b`
+          O:<k>    openOk    … for an object of kind <k> = r | w | b | l
           N        openFail  open / opendir answered with a STATUS
-          U:<h>    use       a handle-bearing request (READ, WRITE, FSTAT, FSETSTAT, READDIR) naming handle <h>
+          U:<h>    use       a request every live handle serves (FSTAT, FSETSTAT) naming handle <h>
+          R:<h>    useAs read     READ naming handle <h>      (fits r, b)
+          W:<h>    useAs write    WRITE naming handle <h>     (fits w, b)
+          D:<h>    useAs readdir  READDIR naming handle <h>   (fits l)
           C:<h>    close     CLOSE of handle <h>
           Z:<0|1>  sweep     Serve returns; 1 = the session ended with a non-nil error
   result  `status=<s>,<s>,… objs=<closed>/<terr>/<ctx>/<touched>/<r|p>,… open=<h>,…`
-          one status per action (`ok`, `ebadf`, `fail`), one group per object in creation order
+          one status per action (`ok`, `ebadf`, `fail`, `wrongkind`), one group per object in creation order
           (`r` real, `p` placeholder of a failed open), the handles still in the table in table order;
+          extended form only: ` handles=<h>,… kinds=<k>,…` — the handle issued by each openOk action, in
+          order, and the kind letter of each object in creation order (`p` for a placeholder);
           an empty list is `.`.  `blocked@<i>` when action i (from 0) comes after the sweep; `bad-op`.
 -/
 namespace Sftp.Driver.C11
@@ -26,18 +44,69 @@ def bit? : Char → Option Bool
   | '1' => some true
   | _ => none
 
-def parseCfg (t : String) : Option Cfg :=
-  match t.toList.map bit? with
-  | [some a, some b, some c, some d, some e, some f] =>
-    some { deleteOnClose := a, closeOnFailedOpen := b, sweepClosesAll := c,
-           sweepNotifiesTransferError := d, counterMonotone := e, allocBeforeOpen := f }
+def kind? : Char → Option Kind
+  | 'r' => some .reader
+  | 'w' => some .writer
+  | 'b' => some .readerWriter
+  | 'l' => some .lister
+  | 'p' => some .placeholder
   | _ => none
+
+def kindLetter : Kind → String
+  | .reader => "r"
+  | .writer => "w"
+  | .readerWriter => "b"
+  | .lister => "l"
+  | .placeholder => "p"
+
+def allSome {α} : List (Option α) → Option (List α)
+  | [] => some []
+  | some a :: t => (allSome t).map (a :: ·)
+  | none :: _ => none
+
+def parseKinds (t : String) : Option (List Kind) :=
+  if t = "." then some [] else if t.isEmpty then none else allSome (t.toList.map kind?)
+
+/-- The configuration and whether the token was of the extended form. -/
+def parseCfg (t : String) : Option (Cfg × Bool) :=
+  match t.splitOn ":" with
+  | [bits] =>
+    match bits.toList.map bit? with
+    | [some a, some b, some c, some d, some e, some f] =>
+      some ({ deleteOnClose := a, closeOnFailedOpen := b, sweepClosesAll := c,
+              sweepNotifiesTransferError := d, counterMonotone := e, allocBeforeOpen := f,
+              sweepEmptiesTable := c, notifyKinds := Kind.all, useKindChecked := true }, false)
+    | _ => none
+  | [bits, ks] =>
+    match bits.toList.map bit?, parseKinds ks with
+    | [some a, some b, some c, some d, some e, some f, some g, some h], some kinds =>
+      some ({ deleteOnClose := a, closeOnFailedOpen := b, sweepClosesAll := c,
+              sweepNotifiesTransferError := d, counterMonotone := e, allocBeforeOpen := f,
+              sweepEmptiesTable := g, notifyKinds := kinds, useKindChecked := h }, true)
+    | _, _ => none
+  | _ => none
+
+def b (x : Bool) : String := if x then "1" else "0"
+
+/-- The extended token of a configuration (kinds in the canonical order r w b l p). -/
+def showCfg (c : Cfg) : String :=
+  let ks := (Kind.all.filter c.notifies).map kindLetter
+  b c.deleteOnClose ++ b c.closeOnFailedOpen ++ b c.sweepClosesAll ++ b c.sweepNotifiesTransferError ++
+  b c.counterMonotone ++ b c.allocBeforeOpen ++ b c.sweepEmptiesTable ++ b c.useKindChecked ++ ":" ++
+  (if ks.isEmpty then "." else String.join ks)
 
 def parseAction (t : String) : Option Action :=
   match t.splitOn ":" with
-  | ["O"] => some .openOk
+  | ["O"] => some (.openOk .readerWriter)
+  | ["O", "r"] => some (.openOk .reader)
+  | ["O", "w"] => some (.openOk .writer)
+  | ["O", "b"] => some (.openOk .readerWriter)
+  | ["O", "l"] => some (.openOk .lister)
   | ["N"] => some .openFail
   | ["U", h] => h.toNat?.map .use
+  | ["R", h] => h.toNat?.map (.useAs · .read)
+  | ["W", h] => h.toNat?.map (.useAs · .write)
+  | ["D", h] => h.toNat?.map (.useAs · .readdir)
   | ["C", h] => h.toNat?.map .close
   | ["Z", "0"] => some (.sweep false)
   | ["Z", "1"] => some (.sweep true)
@@ -50,17 +119,25 @@ def parseAll : List String → Option (List Action)
     | some a, some as => some (a :: as)
     | _, _ => none
 
-def runIdx (cfg : Cfg) : State → Nat → List Action → Except Nat State
-  | s, _, [] => .ok s
-  | s, i, a :: as =>
+def isOpenOk : Action → Bool
+  | .openOk _ => true
+  | _ => false
+
+/-- Runs the actions; also collects the handle issued by every openOk action, in order. -/
+def runIdx (cfg : Cfg) : State → List Nat → Nat → List Action → Except Nat (State × List Nat)
+  | s, hs, _, [] => .ok (s, hs)
+  | s, hs, i, a :: as =>
     match step cfg s a with
-    | some s' => runIdx cfg s' (i + 1) as
+    | some s' =>
+      let hs' := if isOpenOk a then hs ++ [s'.issued.getLastD 0] else hs
+      runIdx cfg s' hs' (i + 1) as
     | none => .error i
 
 def showStatus : Status → String
   | .ok => "ok"
   | .ebadf => "ebadf"
   | .fail => "fail"
+  | .wrongKind => "wrongkind"
 
 def showObj (o : Obj) : String :=
   s!"{o.closed}/{o.terr}/{o.ctx}/{o.touched}/{if o.real then "r" else "p"}"
@@ -73,17 +150,27 @@ def showState (s : State) : String :=
   let op := joinOrDot (s.open.map (fun e => toString e.1))
   s!"status={st} objs={ob} open={op}"
 
+def showExt (s : State) (hs : List Nat) : String :=
+  let h := joinOrDot (hs.map toString)
+  let k := joinOrDot ((List.range s.nobj).map (fun i => kindLetter (s.objs i).kind))
+  s!" handles={h} kinds={k}"
+
 def runOp : List String → String
   | c :: ts =>
     match parseCfg c, parseAll ts with
-    | some cfg, some acts =>
-      match runIdx cfg State.init 0 acts with
-      | .ok s => showState s
+    | some (cfg, ext), some acts =>
+      match runIdx cfg State.init [] 0 acts with
+      | .ok (s, hs) => showState s ++ (if ext then showExt s hs else "")
       | .error i => s!"blocked@{i}"
     | _, _ => "bad-op"
   | _ => "bad-op"
 
+def curOp : List String → String
+  | ["rs"] => showCfg (cfgOfRS G.handlesCfgRS)
+  | ["os"] => showCfg (cfgOfOS G.handlesCfgOS)
+  | _ => "bad-op"
+
 def ops : List (String × (List String → String)) :=
-  [ ("c11.run", runOp) ]
+  [ ("c11.run", runOp), ("c11.cur", curOp) ]
 
 end Sftp.Driver.C11
